@@ -448,6 +448,20 @@ func (h *H) SendSettings(kv [][2]uint32) {
 	h.mu.Unlock()
 }
 
+// Replenish returns connection-level credit for everything received so far (a
+// conforming receiver does; DATA of streams that were reset counts too). It
+// reports whether a WINDOW_UPDATE was sent.
+func (h *H) Replenish() bool {
+	h.mu.Lock()
+	n := int64(65535) - h.ConnWin
+	h.mu.Unlock()
+	if n <= 0 {
+		return false
+	}
+	h.SendWindowUpdate(0, uint32(n))
+	return true
+}
+
 // OpenStream registers the flow-control ledger for a stream we open.
 func (h *H) OpenStream(id uint32) {
 	h.mu.Lock()
